@@ -239,6 +239,45 @@ theorem unpar_flushes_self (σ : Store) (f : Nat) (t : Ast) (parents : Bool) :
   · exact touchParents_cache_stays _ _ _ f (touch_cache_self σ f)
   · exact touch_cache_self σ f
 
+/-- **renumber_positions**: after the renumbering loop that follows the removal of a span from (parallel) list fields,
+the FST of every remaining child records exactly the slot (field name and list index) the child now occupies, and the
+loop writes nothing else (`a`, `parent`, `a.f` untouched) - for any lists, provided the children are distinct objects
+with distinct FSTs. -/
+theorem renumber_positions (σ : Store) (kids : List Ast) (hnd : (kids.map Ast.id).Nodup)
+    (hinj : ∀ k ∈ kids, ∀ k' ∈ kids, ∀ f, σ.astF k.id = some f → σ.astF k'.id = some f → k.id = k'.id) :
+    (renumberKids σ kids).astF = σ.astF ∧
+    ∀ k ∈ kids, ∀ f, σ.astF k.id = some f →
+      ((renumberKids σ kids).fst f).pfield = k.fld ∧ ((renumberKids σ kids).fst f).a = (σ.fst f).a ∧
+      ((renumberKids σ kids).fst f).parent = (σ.fst f).parent := by
+  refine ⟨renumberKids_astF kids σ, ?_⟩
+  induction kids generalizing σ with
+  | nil => intro k hk; cases hk
+  | cons c rest ih =>
+    intro k hk f hf
+    simp only [List.map_cons, List.nodup_cons] at hnd
+    simp only [renumberKids]
+    cases hk with
+    | head =>
+      -- the later children have other FSTs, so the record written for `c` survives
+      have hrest : ∀ k' ∈ rest, (setPfield σ c).astF k'.id ≠ some f := by
+        intro k' hk' he
+        rw [setPfield_astF] at he
+        have := hinj c List.mem_cons_self k' (List.mem_cons_of_mem _ hk') f hf he
+        exact hnd.1 (this ▸ List.mem_map_of_mem hk')
+      rw [renumberKids_other rest _ f hrest]
+      exact setPfield_self σ c f hf
+    | tail _ hk' =>
+      have hck : σ.astF c.id ≠ some f := by
+        intro he
+        have := hinj c List.mem_cons_self k (List.mem_cons_of_mem _ hk') f he hf
+        exact hnd.1 (this ▸ List.mem_map_of_mem hk')
+      have h1 := ih (setPfield σ c) hnd.2
+        (by intro a ha b hb g h1 h2; rw [setPfield_astF] at h1 h2
+            exact hinj a (List.mem_cons_of_mem _ ha) b (List.mem_cons_of_mem _ hb) g h1 h2)
+        k hk' f (by rw [setPfield_astF]; exact hf)
+      rw [setPfield_other σ c f hck] at h1
+      exact h1
+
 /-! ### cache coherence of the `_offset` walk -/
 
 /-- **offset_touches_changed**: on every geometrically ordered tree (`geo`, evaluated on each real tree by the
@@ -371,6 +410,9 @@ private def σ0 : Store :=
 private def s1 : State := { root := tree0, rootF := 0, σ := makeKids σ0 0 tree0.kids }
 
 example : LinkInv s1 := by unfold LinkInv; decide
+-- renumbering repairs stale indices: FST 5 (`b` of `[a, b]`) claims index 3, afterwards it records its real slot
+example : ((renumberKids { s1.σ with fst := upd s1.σ.fst 5 { s1.σ.fst 5 with pfield := fld "elts" (some 3) } }
+    [ .mk 4 "Name" (fld "elts" (some 0)) [], .mk 5 "Name" (fld "elts" (some 1)) [] ]).fst 5).pfield = fld "elts" (some 1) := by decide
 -- the repaired slice-put tail really empties a populated cache of a child
 example : ((touchKids { s1.σ with fst := upd s1.σ.fst 4 { s1.σ.fst 4 with cache := [("parsN", [0, 2, 0, 3, 0])] } }
     [ .mk 4 "Name" none [], .mk 5 "Name" none [] ]).fst 4).cache = [] := by decide
